@@ -71,9 +71,6 @@ func (c *compiler) compileParallel(file *ast.File, call *ast.CallExpr) *parallel
 		}
 
 		switch f.Name() {
-		case "InstrumentFlow":
-			c.errf(c.nodePosition(arg), "%q is an invalid cff.Parallel Option", f.Name())
-			continue
 		case "Task":
 			if t := c.compileParallelTask(parallel, ce.Args[0], ce.Args[1:]); t != nil {
 				parallel.Tasks = append(parallel.Tasks, t)
@@ -97,6 +94,12 @@ func (c *compiler) compileParallel(file *ast.File, call *ast.CallExpr) *parallel
 			if mt := c.compileMap(ce); mt != nil {
 				parallel.MapTasks = append(parallel.MapTasks, mt)
 			}
+		default:
+			// An option of cff.Flow, say. Left alone, its arguments would
+			// never be evaluated and whatever only they refer to would be
+			// unused in the generated file.
+			c.errf(c.nodePosition(arg), "%q is an invalid cff.Parallel Option", f.Name())
+			continue
 		}
 	}
 	c.validateParallelInstrument(parallel)
@@ -149,6 +152,8 @@ func (c *compiler) compileParallelTask(p *parallel, call ast.Expr, opts []ast.Ex
 		switch fn.Name() {
 		case "Instrument":
 			t.Instrument = c.compileInstrument(call)
+		default:
+			c.errf(c.nodePosition(opt), "%q is an invalid cff.Task option in cff.Parallel", fn.Name())
 		}
 	}
 	return t
